@@ -111,6 +111,11 @@ def main():
         r = chk.mc('MC_Weighted', env={'FORMAT': fmt}, workers=4, label='positional ' + fmt)
         if r.violated:
             raise run.MachineryError('positional automaton %s violates %s' % (fmt, r.violated))
+    # IBAN / ISO 11649: Mod 97-10 on the rotated string, incl. the swap across the check digit / BBAN boundary (difference automaton)
+    r = chk.mc('Rot97', 'MC_Rot97', workers=8, label='rotated Mod 97-10, BBAN <= 30 characters: every substitution and adjacent digit swap')
+    if r.violated:
+        raise run.MachineryError('Rot97 violates %s' % r.violated)
+    chk.mc('Rot97', 'MC_Rot97_unbounded', workers=8, expect_violation='Detected', label='negative: without the length bound the boundary swap is missed (10^96 = 1 mod 97)')
     chk.mc('MC_Weighted', env={'FORMAT': 'NEG_ean_swap'}, workers=4, expect_violation='SwapDetected',
            label='negative: EAN weights do not detect every adjacent swap')
     # the implementation's own automata of the algorithms the bound modules delegate to (extracted as in C06):
